@@ -7,7 +7,8 @@ RULE = ("spellings of structured versions (all alternate spellings, separators, 
         "mutations of them, and pairs (neighbours and independent random ones) for the canonical-string invariant; wide spellings (zero runs up to 50, "
         "releases up to 40 components, big epochs / local integers, random alphanumeric local segments, all 29 whitespace code points); law-reading "
         "compares every attribute with the structured version the spelling was generated from; non-trivial = accepted by Version; distinct by input text")
-ASSUMPTIONS = ["integers beyond CPython's int/str digit limit are outside the generated domain (known finding D10, reported under C11)"]
+ASSUMPTIONS = ["the model has no digit limit (finding D10, recorded under C12): numbers of more than 4300 digits, which the real Version() rejects with "
+               "InvalidVersion, are outside the generated domain of this check (largest generated: 4101 digits + a zero run of 50, thorough tier)"]
 
 def streams(rng, tier):
     q = tier == "quick"
